@@ -50,6 +50,7 @@ class Sim(object):
         self.ops_total = 0
         self.sims_total = 0
         self._clock_start = None
+        self.hung = []         # runs stopped by the step cap (never reset: the framework compares lengths)
 
     # ---- world -------------------------------------------------------------
     def setup(self, case):
@@ -124,6 +125,8 @@ class Sim(object):
         self.log.append(r.as_log())
         self.ops_total += r.nops
         self.sims_total += 1
+        if r.exit == -99:
+            self.hung.append((r.argv, r.nops, r.errs[-300:]))
         if K.bypass:
             raise HarnessError('call(s) bypassed the seam: %r' % (K.bypass[:5],))
         return r
